@@ -46,9 +46,26 @@ def main():
             U, s, Vt = np.linalg.svd(J, full_matrices=True)
             smax = s.max() if len(s) else 0.0
             sv = np.concatenate([s, np.zeros(nv - len(s))])
+            if smax == 0.0:
+                # every attempted constraint is EXACTLY insensitive to every variable (requests made
+                # vacuous by aliasing their arguments, e.g. a line parallel to itself): nothing is pinned,
+                # so - "the answer does not depend on how many constraints exist" - every variable is free
+                stats["vacuous_constraints_only"] = stats.get("vacuous_constraints_only", 0) + 1
+                expected = list(range(nv))
+                stats["checked"] += 1
+                stats["with_free_variables"] += 1
+                if expected != reported:
+                    stats["violations"] += 1
+                    sig = "vacuous-constraints-not-everything-free"
+                    if sig not in seen:
+                        seen.add(sig)
+                        print("VIOLATION " + json.dumps({"property": "C05", "kind": "impl-violates-oracle", "signature": sig,
+                            "what": f"every attempted constraint is exactly insensitive to every variable, so all {nv} variables are free, but the under-constrained set is {reported}",
+                            "input": {"requests": rec["requests"], "returned_values": rec["x"]}}))
+                continue
             if smax < 1e-8:
-                # every attempted constraint is (numerically) insensitive to every variable, e.g. a
-                # constraint made vacuous by aliasing its arguments: no meaningful spectrum, excluded
+                # every attempted constraint is (numerically) insensitive to every variable: no
+                # meaningful spectrum, excluded
                 stats["excluded_no_gap"] += 1
                 continue
             else:
